@@ -40,7 +40,7 @@ def run_one(ctx, bt, spec, checker, spy=False):
     return b
 
 
-def run_steps_protocol(ctx, bt, n, footprint_fields=None, corr_name="run-steps", make_spec=None, build=None):
+def run_steps_protocol(ctx, bt, n, footprint_fields=None, corr_name="run-steps", make_spec=None, build=None, trunc=False):
     """whole generated backtests executed on the real code with every outermost engine operation (those issued by the stock
     algos and by Backtest.run itself) recorded as a step and re-executed by the Lean model from the real pre-state"""
     from . import run_steps as RS
@@ -61,5 +61,42 @@ def run_steps_protocol(ctx, bt, n, footprint_fields=None, corr_name="run-steps",
         ctx.count("run-steps:programs")
         for j, st in enumerate(steps):
             batch.append(({"run_spec": spec}, j, st))
-    nc, nd = model_compare(ctx, bt, batch, footprint_fields, None, corr_name)
+    nc, nd = model_compare(ctx, bt, batch, footprint_fields, None, corr_name, trunc=trunc)
     ctx.protocols.append((corr_name, nc, nd))
+
+
+def run_days_protocol(ctx, bt, n, footprint_fields=None, corr_name="btday", make_spec=None, build=None, trunc=False):
+    """whole generated backtests on the real code; for the backtest's own root and for every shadow copy of a sub-strategy, each
+    day of the loop (`update; if not bankrupt: run; update`) is recorded with the worlds before, between and after, and
+    re-executed by the model's `btDay` (the algos' effect = the recorded world after run(); the model decides whether run() is
+    called at all and performs both updates)."""
+    from . import run_steps as RS
+    from .engine_run import model_compare
+    batch = []
+    for _ in range(n):
+        spec = make_spec(ctx.rng) if make_spec else R.gen_run_spec(ctx.rng)
+        try:
+            if build:
+                b = build(bt, spec)
+            else:
+                b, data, add = R.build_backtest(bt, spec)
+            with RS.record_days(bt) as events:
+                try:
+                    b.run()
+                except Exception as e:  # noqa
+                    ctx.count(corr_name + ":program-raised:" + E.classify_exc(e))
+        except Exception as e:  # noqa
+            ctx.count(corr_name + ":build-raised:" + E.classify_exc(e))
+            continue
+        ctx.count(corr_name + ":programs")
+        for k, obj in events["objects"].items():
+            standalone = obj is b.strategy
+            steps = RS.day_steps(events[k], standalone)
+            ctx.count(corr_name + (":root-days" if standalone else ":paper-days"), len(steps))
+            for j, st in enumerate(steps):
+                if st["op"]["op"] == "btday":
+                    ctx.count(corr_name + (":ran" if st["op"]["ran"] else ":not-run(bankrupt)"))
+                batch.append(({"run_spec": spec, "top": "root" if standalone else "paper"}, j, st))
+    nc, nd = model_compare(ctx, bt, batch, footprint_fields, None, corr_name, trunc=trunc)
+    ctx.protocols.append((corr_name, nc, nd))
+    return nc, nd
